@@ -19,7 +19,9 @@ RULE = ("workloads of 2-4 session threads with different identities and protocol
         "of SOME merge of the per-thread sequences; in half of the workloads one more session is busy answering "
         "undecodable / refused frames: it calls the engine's other session-facing entry point (build_error_response, "
         "as session.py does outside process_request) in a loop while the others are being served - its answers must be "
-        "error responses and must not disturb the serial reading of the others; "
+        "error responses and must not disturb the serial reading of the others; real KmipSession threads with their own "
+        "certificates and the SLUGS plug-in enabled (a slow directory, so identity establishment overlaps): every "
+        "request is processed under the identity of the session that sent it; "
         "non-trivial = a schedule in which at least two threads overlapped "
         "(a thread waited for the lock); distinct = distinct (workload, acquisition order)")
 ASSUMPTIONS = ["CPython thread scheduling and SQLite/SQLAlchemy thread-safety with check_same_thread=False are "
@@ -307,6 +309,101 @@ def run(ctx):
                      "lock_order": meta[0][4]}],
         "schedules_with_lock_contention": overlapped, "serial_candidates_evaluated": len(hist),
         "traces_validated_against_impl": len(meta)})
+    session_threads_part(ctx)
+
+
+def session_threads_case(seed):
+    """2-3 REAL KmipSession threads (own fake TLS connection and client certificate each) on ONE real engine, with the
+    SLUGS plug-in enabled and a directory that answers slowly: identity establishment of the sessions overlaps.
+    -> list of (signature, what): every request must be processed under the identity of the session that sent it"""
+    import time
+    import impl_session as S
+    import gen_session as G
+    from kmip.services.server import session as session_mod
+    rnd = random.Random(seed)
+    users = ["alice", "bob", "carol"][:rnd.choice([2, 2, 3])]
+    groups = {"alice": ["ga", "shared"], "bob": ["gb"], "carol": []}
+    url = "http://slugs0.example"
+
+    class SlowSlugs(object):
+        def get(self, u, timeout=None, **kw):
+            time.sleep(rnd.choice([0, 0.0005, 0.002]))
+            i = u.find("/users/")
+            rest = u[i + 7:]
+            user = rest.split("/")[0]
+            if user not in groups:
+                return S.FakeHttpResponse(404, "invalid")
+            time.sleep(rnd.choice([0, 0.001]))
+            return S.FakeHttpResponse(200, {"groups": list(groups[user])})
+    rig = S.Rig()
+    fails = []
+    saved = S.slugs_mod.requests
+    S.slugs_mod.requests = S._RequestsShim(SlowSlugs())
+    old = sys.getswitchinterval()
+    try:
+        log = []
+        orig = rig.engine.process_request
+
+        def recording(request, credential=None):
+            bid = None
+            try:
+                bid = request.batch_items[0].unique_batch_item_id.value.decode()
+            except Exception:
+                pass
+            log.append((bid, credential))
+            return orig(request, credential)
+        rig.engine.process_request = recording
+        nreq = rnd.choice([2, 3, 4])
+        conns = {}
+        for u in users:
+            frames = [G.encode_request(G.mkreq(12, [{"op": "query", "bid": "%s-%d" % (u, k), "crypto": None,
+                                                      "functions": [1]}])) for k in range(nreq)]
+            conns[u] = S.FakeConn([b"".join(frames)], S.make_cert((u,), "client"))
+        sys.setswitchinterval(1e-6)
+        barrier = threading.Barrier(len(users))
+
+        # ONE settings object for all sessions, as KmipServer hands its auth_settings to every session it starts
+        settings = [("auth:slugs", {"enabled": "True", "url": url})]
+
+        def serve(u):
+            sess = session_mod.KmipSession(rig.engine, conns[u], ("192.0.2.9", 40001), name="s-" + u,
+                                           enable_tls_client_auth=True, auth_settings=settings)
+            barrier.wait()
+            sess.run()
+        ths = [threading.Thread(target=serve, args=(u,), name="S-" + u) for u in users]
+        for t in ths:
+            t.start()
+        for t in ths:
+            t.join(60)
+        for bid, cred in log:
+            u = (bid or "?").split("-")[0]
+            want = (u, groups.get(u))
+            got = (cred[0], None if cred[1] is None else list(cred[1])) if cred else None
+            if got != want:
+                fails.append(("c10:session-identity-of-another-session",
+                              "the request %s sent on %s's connection was processed under identity %r (established for that "
+                              "session: %r)" % (bid, u, got, want)))
+        if len(log) != nreq * len(users):
+            fails.append(("c10:session-requests-not-all-served", "%d requests were sent on %d connections, %d reached the engine"
+                          % (nreq * len(users), len(users), len(log))))
+    finally:
+        sys.setswitchinterval(old)
+        S.slugs_mod.requests = saved
+        rig.close()
+    return fails
+
+
+def session_threads_part(ctx):
+    n = 24 if ctx.tier == "quick" else 400
+    import multiprocessing
+    seeds = [ctx.seed * 7919 + 1000 + i for i in range(n)]
+    with multiprocessing.get_context("fork").Pool(6) as pool:
+        res = pool.map(session_threads_case, seeds)
+    for sd, fails in zip(seeds, res):
+        for sig, what in fails:
+            ctx.report(sig, what, {"kind": "session-threads", "seed": sd})
+    ctx.coverage["session_thread_workloads"] = n
+    ctx.coverage["evaluations"] = ctx.coverage.get("evaluations", 0) + n
 
 
 def search(ctx, broken):
@@ -316,6 +413,13 @@ def search(ctx, broken):
 
 def replay(ctx, rep):
     r = rep.get("replay", rep)
+    if r.get("kind") == "session-threads":
+        bad = 0
+        for _ in range(10):
+            fails = session_threads_case(r["seed"])
+            bad += 1 if fails else 0
+        print("  runs (of 10) in which a request was processed under another session's identity: %d" % bad)
+        return bad == 0
     c2 = type(ctx)(ctx.pid, "quick", ctx.seed, None)
     bad = 0
     for _ in range(20):
